@@ -539,6 +539,41 @@ static std::string doOp(const std::string& op) {
     return "ok";
   }
   // END C19
+  // BEGIN C12: `c12 <hex>` — parse in context 0, unparse, run; re-parse that text in the twin context 1, unparse, run
+  if (cmd == "c12") {
+    auto unparseX = [](Executable* x) -> std::string {
+      int fd = memfd(); FILE* f = fdopen(dup(fd), "w");
+      x->unparse(f); fflush(f); fclose(f);
+      struct stat st; fstat(fd, &st); std::string o(st.st_size, 0);
+      if (st.st_size) { ssize_t n = pread(fd, &o[0], o.size(), 0); (void)n; }
+      close(fd);
+      return o;
+    };
+    std::string res;
+    std::string text = hexdec(a.at(1));
+    for (int k = 0; k < 2; ++k) {
+      CtxSlot& s = g_ctx[k];
+      if (!s.ctx) { s.fd = memfd(); s.rd = 0; s.ctx = new Context(s.fd, s.fd); }
+      std::string n = std::to_string(k + 1);
+      StringReader reader(text);
+      Executable* x = nullptr;
+      try { x = Parser::parse(*s.ctx, reader); }
+      catch (ParseError& pe) { res += (k ? " p" : "p") + n + "=" + perr(pe); break; }
+      g_exe[k] = x;
+      res += (k ? " p" : "p") + n + "=ok";
+      text = unparseX(x);
+      res += " t" + n + "=" + hexenc(text);
+      std::string r = runExec(x, nullptr);
+      for (auto& c : r) if (c == ' ') c = '_';
+      res += " r" + n + "=" + r;
+      res += " o" + n + "=" + hexenc(readOut(s));
+      std::string d = doDump(*s.ctx);
+      for (auto& c : d) if (c == ' ') c = '_';
+      res += " d" + n + "=" + d;
+    }
+    return res;
+  }
+  // END C12
   if (cmd == "parse") {
     Context& c = *K(1).ctx; StringReader reader(hexdec(a.at(3)));
     try { X(2) = Parser::parse(c, reader); return "ok"; }
